@@ -148,6 +148,14 @@ def node_edits(base, rng, cap=None, for_model=False):
                 if n >= 2:
                     i = rng.randint(0, n - 1)
                     out.append(('aop %s sl %d %d' % (p, i, rng.randint(i, n)), True))
+                # take the list, (edit it in place,) put the same object back
+                out.append(('aop %s same' % p, twin or n >= 1))
+                out.append(('aop %s srev' % p, twin or n >= 2))
+                for i in (range(-n, n) if full else ([rng.randrange(-n, n)] if n else [])):
+                    out.append(('aop %s spop %d' % (p, i), True))
+                gm = [m for m in L.ARG_MATS if m[0] == 'g']
+                out.append(('aop %s sins %d %s' % (p, rng.randint(0, n), rng.choice(gm)), True))
+                out.append(('aop %s sapp %s' % (p, rng.choice(gm)), True))
             k = rng.randint(0, 3)
             out.append(('args %s %s' % (p, ','.join(rng.choice(L.ARG_MATS) for _ in range(k)) or '_'), twin or n >= 1))
         if not isinstance(x, D.TexText):
@@ -355,7 +363,14 @@ def describe(op):
     if w[0] == 'args':
         return 'node.args = TexArgs(%s) (node at %s)' % (
             [dec(m[2:]) for m in w[2].split(',')] if w[2] != '_' else [], w[1])
-    sub = {'rev': 'node.args.reverse()', 'rs': 'node.args = node.args[::-1]'}.get(w[2])
+    sub = {'rev': 'node.args.reverse()', 'rs': 'node.args = node.args[::-1]',
+           'same': 'a = node.args; node.args = a', 'srev': 'a = node.args; a.reverse(); node.args = a'}.get(w[2])
+    if w[2] == 'spop':
+        sub = 'a = node.args; a.pop(%s); node.args = a' % w[3]
+    if w[2] == 'sins':
+        sub = 'a = node.args; a.insert(%s, %s); node.args = a' % (w[3], L.mat_show(w[4]))
+    if w[2] == 'sapp':
+        sub = 'a = node.args; a.append(%s); node.args = a' % L.mat_show(w[3])
     if w[2] == 'sl':
         sub = 'node.args = node.args[%s:%s]' % (w[3], w[4])
     if w[2] == 'perm':
@@ -418,7 +433,9 @@ def oracle(ctx, seeds, scale):
               '(identity of .expr, order kept), find_all(new) gains exactly it, count/find agree. node.string = s: exactly the '
               'inside of the single argument, resp. the body of the text-only environment/group/math region, becomes s. '
               'node.args assigned the reversal ([::-1] and .reverse()), prefixes, slices, permutations of its own arguments '
-              '(TexArgs slicing) or foreign arguments: exactly the argument span becomes the concatenation of their texts and '
+              '(TexArgs slicing) or foreign arguments, or the node\'s own list object put back after nothing / reverse() / '
+              'pop(i) / insert(i, group) / append(group) on it in place (a = node.args; ..; node.args = a: the list as it is '
+              'after the in-place edit): exactly the argument span becomes the concatenation of their texts and '
               'the list holds those objects. An edit that raises must leave str(soup) unchanged. Explored clause (see '
               'partial_clauses): TexSoup(str(soup)) and the edited tree have the same canonical tree without positions. '
               'Documents: hand-written, lib_edit.gen_doc, short repository documents; %s; non-trivial = textual twin of the '
